@@ -370,7 +370,8 @@ def answer (line : String) : String :=
     | some s, some path =>
       let m := match Lex.anyUriCtor (field fs "F" == "1") path s with | some v => "ok:" ++ showCPs v | none => "ERR:V"
       let c := XSD.wsCollapse s
-      let sp := s!"ok:{showCPs c}:hash={if XSD.atMostOneHash c then 1 else 0}:pct={if XSD.pctEncodedOk c then 1 else 0}"
+      let sp := s!"ok:{showCPs c}:hash={if XSD.atMostOneHash c then 1 else 0}:pct={if XSD.pctEncodedOk c then 1 else 0}" ++
+        s!":colon={if XSD.noLeadingColon c then 1 else 0}"
       out m m sp (flags s)
     | _, _ => "bad-string"
   else if op == "str" then
